@@ -117,6 +117,24 @@ def run_driver(config="lib", verbose=True):
     return out, False, time.time() - t0
 
 
+TOUCHED = set()          # keys of the bodies whose blocks a rule actually read (RM_COVERAGE=<file>: dumped at exit)
+
+class _TrackedFn(dict):
+    __slots__ = ()
+    def __getitem__(self, k):
+        if k == "blocks":
+            TOUCHED.add(dict.__getitem__(self, "key"))
+        return dict.__getitem__(self, k)
+
+BODIES = set()           # keys of the bodies a rule built a CFG for (targeted analysis, as opposed to a crate-wide scan)
+
+def _dump_coverage(path, fns):
+    try:
+        with open(path, "w") as fh:
+            json.dump({"touched": sorted(TOUCHED), "bodies": sorted(BODIES), "all": sorted({f["key"] for f in fns})}, fh)
+    except OSError:
+        pass
+
 class Facts:
     def __init__(self, path, H=None):
         with open(path) as fh:
@@ -135,6 +153,11 @@ class Facts:
         if H is not None and self.meta.get("nonce") != H:
             raise InfraError("fact file nonce mismatch")
         self.fns = d["fns"]
+        if os.environ.get("RM_COVERAGE"):
+            import atexit
+            self.fns = d["fns"] = [_TrackedFn(f) for f in d["fns"]]
+            TOUCHED.clear()
+            atexit.register(_dump_coverage, os.environ["RM_COVERAGE"], self.fns)
         self.adts = {a["path"]: a for a in d["adts"]}
         self.impls = [i for i in d["impls"] if "self" in i]
         self.traits = {i["trait_def"]: i for i in d["impls"] if "trait_def" in i}
